@@ -440,6 +440,7 @@ extern "C" int simk_epoll_wait(int ep, struct epoll_event *evs, int max, int tim
 	OWN(ep);
 	if (fault_here(F_EINTR_WAIT, C().rate_eintr, NULL, 0)) { errno = EINTR; return -1; }
 	int64_t deadline = timeout < 0 ? -1 : now_ns() + (int64_t)timeout * 1000000LL;
+	int64_t t_enter = now_ns();
 	int got;
 	for (;;) {
 		// the outside world does whatever was scheduled up to now
@@ -471,12 +472,13 @@ extern "C" int simk_epoll_wait(int ep, struct epoll_event *evs, int max, int tim
 		got = epoll_wait(ep, evs, max, 0);
 		break;
 	}
-	if (timeout == 0 && C().epoll_zero_cost_ns) {
-		// a loop spinning on zero timeouts burns real CPU time; the longer it spins the coarser it is accounted for
+	if (C().epoll_zero_cost_ns && (timeout == 0 || (C().epoll_zero_cost_adaptive && now_ns() == t_enter))) {
+		// a call that returns without having waited still costs CPU time; a loop that keeps doing that (zero timeouts,
+		// or a descriptor that stays ready and is never drained) is accounted for ever more coarsely
 		if (g_zero_streak < 1000) g_zero_streak++;
 		int sh = C().epoll_zero_cost_adaptive ? g_zero_streak / 8 : 0;
-		advance_ns(C().epoll_zero_cost_ns << (sh < 10 ? sh : 10));
-	} else if (timeout != 0) {
+		advance_ns(C().epoll_zero_cost_ns << (sh < 12 ? sh : 12));
+	} else {
 		g_zero_streak = 0;
 	}
 	int64_t a;
